@@ -26,6 +26,8 @@ def main():
     ap.add_argument("--tier", default=None)
     ap.add_argument("--replay", default=None)
     ap.add_argument("--no-build", action="store_true")
+    ap.add_argument("--child-json", default=None)      # a pass under another PYTHONHASHSEED: results to this file, nothing else written
+    ap.add_argument("--model-runs", default="1")
     args = ap.parse_args()
     prop = args.prop
     tier = os.environ.get("VERIF_TIER") or args.tier or "quick"
@@ -46,7 +48,30 @@ def main():
         return 2
 
     if args.replay:
+        # a failure found under another hash seed is replayed under that hash seed
+        try:
+            hs = json.load(open(args.replay)).get("hash_seed")
+        except Exception:
+            hs = None
+        if hs is not None and os.environ.get("PYTHONHASHSEED") != str(hs):
+            env = dict(os.environ, PYTHONHASHSEED=str(hs))
+            os.execvpe(sys.executable, [sys.executable, "-m", "harness.main"] + sys.argv[1:], env)
         return mod.replay(args.replay, log)
+
+    if args.child_json:
+        # one more pass of the same check under the PYTHONHASHSEED of this process (set iteration order is part of the
+        # schedule the properties quantify over); the parent merges what is found
+        out = {"violations": [], "known": [], "disagreements": [], "evaluations": 0, "error": None}
+        try:
+            r = mod.run(tier="quick", seed=seed, log=lambda m: None, model_runs=args.model_runs == "1", enlarged=False)
+            out["violations"] = r.get("violations", [])[:4]
+            out["known"] = r.get("known", [])
+            out["disagreements"] = r.get("disagreements", [])[:2]
+            out["evaluations"] = r.get("coverage", {}).get("evaluations", 0)
+        except Exception:
+            out["error"] = traceback.format_exc()[-2000:]
+        json.dump(out, open(args.child_json, "w"), default=str)
+        return 0
 
     # ---- A/B
     if args.no_build:
@@ -65,6 +90,44 @@ def main():
         tb = traceback.format_exc()
         log("harness error:\n" + tb)
         res["violations"].append({"kind": "harness-error", "detail": tb[-2000:]})
+
+    # ---- C' the same check under other hash seeds (quick tier: 3 more, thorough: 6 more), in parallel
+    sweep = {}
+    if os.environ.get("VERIF_NO_HASH_SWEEP") != "1":
+        import subprocess
+        import tempfile
+        base_hs = int(os.environ.get("PYTHONHASHSEED", "0") or 0)
+        others = [base_hs + k for k in ((1, 2, 3) if tier == "quick" else (1, 2, 3, 4, 5, 6))]
+        tmpd = tempfile.mkdtemp(prefix="verif_hs_")
+        procs = []
+        for h in others:
+            outp = os.path.join(tmpd, "hs%d.json" % h)
+            env = dict(os.environ, PYTHONHASHSEED=str(h), VERIF_SEED=str(seed + h), VERIF_NO_HASH_SWEEP="1")
+            procs.append((h, outp, subprocess.Popen(
+                [sys.executable, "-m", "harness.main", prop, "--tier", "quick", "--no-build", "--child-json", outp,
+                 "--model-runs", "1" if model_runs else "0"], env=env, stdout=subprocess.DEVNULL, stderr=subprocess.DEVNULL)))
+        for h, outp, pr in procs:
+            try:
+                pr.wait(timeout=3000)
+                r = json.load(open(outp))
+            except Exception as e:
+                r = {"violations": [], "known": [], "disagreements": [], "evaluations": 0, "error": repr(e)}
+            if r.get("error"):
+                res["violations"].append({"kind": "harness-error", "what": "pass under PYTHONHASHSEED=%d failed" % h,
+                                          "detail": r["error"], "hash_seed": h})
+            for v in r["violations"]:
+                res["violations"].append(dict(v, hash_seed=h, generator_seed=seed + h))
+            for d in r["disagreements"]:
+                res.setdefault("disagreements", []).append(dict(d, hash_seed=h, generator_seed=seed + h))
+            for k in r["known"]:
+                if k not in res["known"]:
+                    res["known"].append(k)
+            sweep[str(h)] = {"evaluations": r.get("evaluations", 0), "violations": len(r["violations"]),
+                             "disagreements": len(r["disagreements"]), "generator_seed": seed + h}
+        import shutil
+        shutil.rmtree(tmpd, ignore_errors=True)
+        log("passes under other hash seeds: %s" % json.dumps(sweep))
+        res["coverage"].setdefault("distribution", {})["passes_under_other_hash_seeds"] = sweep
 
     # ---- D
     lines = []
